@@ -273,26 +273,26 @@ def rule_init_guards(ck, rid="C03.R5"):
 
 
 def run(ck):
-    rule_ideal(ck)
-    rule_stepwise(ck)
-    rule_taint(ck)
-    rule_pilot_cap(ck)
-    rule_init_guards(ck)
+    ck.attempt(rule_ideal)
+    ck.attempt(rule_stepwise)
+    ck.attempt(rule_taint)
+    ck.attempt(rule_pilot_cap)
+    ck.attempt(rule_init_guards)
     # a closed form evaluated with the wrong breakpoint yields a negative rate (the exponent's sign flips): the bounds need the
     # region tests and the pieces to agree on the pilot-adjusted breakpoint
     from .c14 import rule_breakpoint, rule_law
-    rule_breakpoint(ck, rid="C03.R8")
+    ck.attempt(rule_breakpoint, rid="C03.R8")
     # 0 <= rate <= pilot for the continuous model: each piece of the closed form is the solution of ds/dtau = r(s) with
     # r(s) = D below the breakpoint and D (1 - s)/(1 - P) in [0, D] above it (identities decided by computer algebra); a solution of that
     # law gains between 0 and D per period, so the returned rate lies between 0 and the (capped) pilot
-    rule_law(ck, rid="C03.R9")
+    ck.attempt(rule_law, rid="C03.R9")
     from .c13 import rule_validate_before_mutate
-    rule_validate_before_mutate(ck, rid="C03.R6")
+    ck.attempt(rule_validate_before_mutate, rid="C03.R6")
     # "0 <= recorded rate <= recorded pilot": the rate an EV reports (and the simulator records) is the value its battery returned for
     # this very pilot, and every battery entry point goes through a bounded routine (shared with C02)
     from .c02 import rule_same_value, rule_call_chain
-    rule_same_value(ck, rid="C03.R10")
-    rule_call_chain(ck, rid="C03.R11")
+    ck.attempt(rule_same_value, rid="C03.R10")
+    ck.attempt(rule_call_chain, rid="C03.R11")
     # the clamps only bound the rate if the conversions between A, kW, kWh and SoC-per-period are exact (units + truncation)
     from ..units import check_units
     from ..tables import UNITS
